@@ -304,6 +304,82 @@ def check_annotate(ctx, case_seed):
         V(ctx, 'annotate-evaluated-raises', 'evaluated() raised %s' % type(e).__name__, w, rp)
 
 
+@core.guarded(lambda case_seed: dict(workload='annotate-method', case_seed=case_seed))
+def check_annotate_method(ctx, case_seed):
+    """values given to modifiers.annotate on a *method* already wrapped by a modifier are
+    reported verbatim by every view of it: the class attribute, a method object taken from an
+    instance before annotate was applied and kept, one taken afterwards from the same and from a
+    fresh instance, and a partial / embed over the kept one."""
+    import functools
+    import sigtools
+    from sigtools import modifiers, signatures as S
+    rnd = random.Random(case_seed)
+    params = rnd.choice([p for p in sigs.U(('a', 'b', 'c'), 3, stars=sigs.STARS2[:1])
+                         if sum(x[1] == PK for x in p) >= 2 and not any(x[1] == PO for x in p)])
+    pk = [x[0] for x in params if x[1] == PK]
+    future = rnd.random() < 0.5
+    f = sigs.make_func((('self', PK, None, None),) + tuple(params), name='meth', future=future, register=True)
+    deco_name = rnd.choice(('kwoargs', 'posoargs', 'autokwoargs', 'kwoargs+posoargs'))
+    try:
+        if deco_name == 'kwoargs':
+            m = modifiers.kwoargs(pk[-1])(f)
+        elif deco_name == 'posoargs':
+            m = modifiers.posoargs(end=pk[0])(f)
+        elif deco_name == 'autokwoargs':
+            m = modifiers.autokwoargs(f)
+        else:
+            m = modifiers.kwoargs(pk[-1])(modifiers.posoargs(end=pk[0])(f))
+    except ValueError:
+        return
+    if not isinstance(m, modifiers._PokTranslator):
+        return
+    cls = type('Holder', (object,), {'meth': m})
+    inst = cls()
+    held = [inst.meth] if rnd.random() < 0.8 else []
+    if held and rnd.random() < 0.5:
+        try:
+            sigtools.signature(held[0])        # ... and somebody looked at it already
+        except Exception:
+            pass
+    chosen = rnd.sample(pk + [x[0] for x in params if x[1] == KO], rnd.randint(1, 2))
+    values = {n: rnd.choice((T1, T2, 'a string', 17, ('tuple', 1))) for n in chosen}
+    use_ret = rnd.random() < 0.5
+    ret = rnd.choice((T3, 'ret', 5))
+    ctx.evaluated()
+    ctx.count('C11.annotate_method_cases')
+    rp = dict(workload='annotate-method', case_seed=case_seed)
+    w = {'method': '(self, %s)' % sigs.render(params), 'modifier': deco_name, 'annotate': {k: repr(v) for k, v in values.items()},
+         'return': repr(ret) if use_ret else None, 'future': future, 'held_before_annotate': bool(held)}
+    modifiers.annotate(*((ret,) if use_ret else ()), **values)(cls.__dict__['meth'])
+    ctx.nontrivial(('annotate-method', params, deco_name, tuple(sorted(chosen)), use_ret, future, bool(held)))
+    views = [('class attribute', cls.meth), ('same instance, afterwards', inst.meth), ('fresh instance', cls().meth)]
+    if held:
+        views.append(('method object kept from before annotate', held[0]))
+        views.append(('partial over the kept method object', functools.partial(held[0])))
+    for label, o in views:
+        for retr in (sigtools.signature, S.signature, inspect.signature):
+            if retr is inspect.signature and isinstance(o, functools.partial):
+                continue
+            s = retr(o)
+            up = retr is not inspect.signature
+            for n, v in values.items():
+                p = s.parameters[n]
+                if p.annotation is not v or (up and p.upgraded_annotation.source_value() is not v):
+                    V(ctx, 'annotate-not-verbatim-on-method-view',
+                      'the value given to annotate for %r is not reported by a view of the method' % n,
+                      dict(w, view=label, retrieval=retr.__module__ + '.signature', got=repr(p.annotation)), rp)
+            if use_ret and s.return_annotation is not ret:
+                V(ctx, 'annotate-return-not-verbatim-on-method-view',
+                  'the return value given to annotate is not reported by a view of the method',
+                  dict(w, view=label, retrieval=retr.__module__ + '.signature', got=repr(s.return_annotation)), rp)
+            if up:
+                ev = s.evaluated()
+                for n, v in values.items():
+                    if ev.parameters[n].annotation is not v:
+                        V(ctx, 'annotate-evaluated-differs-on-method-view', 'evaluated() changes a value given to annotate',
+                          dict(w, view=label), rp)
+
+
 def run(ctx):
     rnd = ctx.rng('ann')
     n = {'quick': 12000, 'thorough': 1000000}[ctx.tier] // ctx.nshards
@@ -313,10 +389,14 @@ def run(ctx):
         check_case(ctx, rnd.getrandbits(48))
         if i % 5 == 0:
             check_annotate(ctx, rnd.getrandbits(48))
+        if i % 10 == 1:
+            check_annotate_method(ctx, rnd.getrandbits(48))
 
 
 def replay(ctx, rec):
     if rec['workload'] == 'annotate':
         check_annotate(ctx, rec['case_seed'])
+    elif rec['workload'] == 'annotate-method':
+        check_annotate_method(ctx, rec['case_seed'])
     else:
         check_case(ctx, rec['case_seed'])
